@@ -49,17 +49,12 @@ def tv_compare(name, prog, tv):
 def run(ctx):
     impl = V.run_harness("c02", ctx)
     gen_files = sorted(os.path.join(ctx.gen, f) for f in os.listdir(ctx.gen) if f.endswith(".v"))
-    ok, deps, probs = V.gate_library(ctx, PROP_FILES, gen_files)
-    pa_ok, closed, axioms, pa_out = V.prop_assumptions(ctx, PROP_FILES[0])
-    bad_ax = V.axioms_ok(axioms)
-    if not ok or not pa_ok or bad_ax:
-        V.violation(ctx, "hygiene gate / library build failed: %s %s" % (probs[:5], bad_ax),
-                    {"broken": "library", "problems": probs, "bad_axioms": bad_ax,
-                     "coq_error": V.coq_error(pa_out)}, found_input=False)
+    lib = V.check_props(ctx, PROP_FILES, gen_files)
     res = V.coqc_many(gen_files, ctx, timeout=900)
-    lib_obl = V.count_obligations(deps)
+    lib_obl = lib["obligations"]
     obligations = lib_obl
-    discharged = lib_obl if (ok and pa_ok) else 0
+    discharged = lib["discharged"]
+    deps, axioms = lib["deps"], lib["axioms"]
     programs = 0
     tv_n = 0
     samples = []
